@@ -21,25 +21,27 @@ theorem connect_up (s : St) (p : Peer) (h : s.up.contains p = true) :
   unfold connect; rw [if_pos h]
 
 theorem connect_down (s : St) (p : Peer) (h : s.up.contains p = false) :
-    connect s p = ({ s with dials := s.dials + s.dpc }, none) := by
+    connect s p = ({ s with dials := s.dials + s.dpc, waits := s.waits + s.wpc }, none) := by
   unfold connect; rw [if_neg (by rw [h]; exact Bool.false_ne_true)]
 
 /-- the fields a `Send` never touches, and the monotone ones -/
 structure Keeps (s s' : St) : Prop where
   dpc : s'.dpc = s.dpc
+  wpc : s'.wpc = s.wpc
   up : s'.up = s.up
   handlers : s'.handlers = s.handlers
   calls : s'.calls = s.calls
 
-theorem Keeps.refl (s : St) : Keeps s s := ⟨rfl, rfl, rfl, rfl⟩
+theorem Keeps.refl (s : St) : Keeps s s := ⟨rfl, rfl, rfl, rfl, rfl⟩
 theorem Keeps.trans {a b c : St} (h1 : Keeps a b) (h2 : Keeps b c) : Keeps a c :=
-  ⟨h2.dpc.trans h1.dpc, h2.up.trans h1.up, h2.handlers.trans h1.handlers, h2.calls.trans h1.calls⟩
+  ⟨h2.dpc.trans h1.dpc, h2.wpc.trans h1.wpc, h2.up.trans h1.up, h2.handlers.trans h1.handlers,
+    h2.calls.trans h1.calls⟩
 
 theorem connect_keeps (s : St) (p : Peer) : Keeps s (connect s p).1 := by
-  unfold connect; split <;> exact ⟨rfl, rfl, rfl, rfl⟩
+  unfold connect; split <;> exact ⟨rfl, rfl, rfl, rfl, rfl⟩
 
 theorem sendOn_keeps (s : St) (c : Conn) (m : Nat) (b : Bool) : Keeps s (sendOn s c m b).1 := by
-  unfold sendOn; split <;> exact ⟨rfl, rfl, rfl, rfl⟩
+  unfold sendOn; split <;> exact ⟨rfl, rfl, rfl, rfl, rfl⟩
 
 theorem sendOn_dials (s : St) (c : Conn) (m : Nat) (b : Bool) : (sendOn s c m b).1.dials = s.dials := by
   unfold sendOn; split <;> rfl
@@ -147,6 +149,94 @@ theorem c09_bounded_attempts (s : St) (p : Peer) (msgs : List Nat) (staleOk : Bo
 /-- the constant in the bound, for the two transports and every value of `MaxRetryConnect` -/
 theorem c09_dials_per_connect (M : Nat) :
     dialsPerConnect M .tcp = M ∧ dialsPerConnect M .loc = M * M := ⟨rfl, rfl⟩
+
+/-! ### sends return within the configured time-outs -/
+
+theorem sendOn_waits (s : St) (c : Conn) (m : Nat) (b : Bool) : (sendOn s c m b).1.waits = s.waits := by
+  unfold sendOn; split <;> rfl
+
+theorem connect_waits (s : St) (p : Peer) : (connect s p).1.waits ≤ s.waits + s.wpc := by
+  unfold connect; split <;> simp
+
+theorem sendMsgs_waits (s : St) (p : Peer) (c : Conn) (b : Bool) (msgs : List Nat) :
+    (sendMsgs s p c b msgs).1.waits ≤ s.waits + msgs.length * s.wpc := by
+  induction msgs generalizing s with
+  | nil => simp [sendMsgs]
+  | cons m ms ih =>
+    simp only [sendMsgs, List.length_cons]
+    have k1 := sendOn_keeps s c m b
+    have d1 := sendOn_waits s c m b
+    have e : (ms.length + 1) * s.wpc = ms.length * s.wpc + s.wpc := Nat.succ_mul _ _
+    split
+    · have := ih (sendOn s c m b).1
+      rw [k1.wpc, d1] at this
+      omega
+    · have kc := connect_keeps (sendOn s c m b).1 p
+      have dc := connect_waits (sendOn s c m b).1 p
+      rw [k1.wpc, d1] at dc
+      split
+      · rename_i s2 heq
+        have h2 : s2 = (connect (sendOn s c m b).1 p).1 := by rw [heq]
+        subst h2
+        dsimp only; omega
+      · rename_i s2 c' heq
+        have h2 : s2 = (connect (sendOn s c m b).1 p).1 := by rw [heq]
+        subst h2
+        have k2 := sendOn_keeps (connect (sendOn s c m b).1 p).1 c' m b
+        have d2 := sendOn_waits (connect (sendOn s c m b).1 p).1 c' m b
+        split
+        · have := ih (sendOn (connect (sendOn s c m b).1 p).1 c' m b).1
+          rw [k2.wpc, kc.wpc, k1.wpc, d2] at this
+          omega
+        · rw [d2]; omega
+
+theorem send_waits (s : St) (p : Peer) (msgs : List Nat) (staleOk : Bool) :
+    (send s p msgs staleOk).1.waits ≤ s.waits + (1 + msgs.length) * s.wpc := by
+  unfold send
+  have e : (1 + msgs.length) * s.wpc = s.wpc + msgs.length * s.wpc := by
+    rw [Nat.add_mul, Nat.one_mul]
+  split
+  · dsimp only; omega
+  · split
+    · rename_i c _
+      have := sendMsgs_waits s p c staleOk msgs
+      omega
+    · have kc := connect_keeps s p
+      have dc := connect_waits s p
+      split
+      · rename_i s1 heq
+        have h1 : s1 = (connect s p).1 := by rw [heq]
+        subst h1; dsimp only; omega
+      · rename_i s1 c heq
+        have h1 : s1 = (connect s p).1 := by rw [heq]
+        subst h1
+        have := sendMsgs_waits (connect s p).1 p c staleOk msgs
+        rw [kc.wpc] at this
+        omega
+
+/-- **sends return within the configured time-outs**: whatever the state of the connection table
+and of the peer, a `Send` of `n` messages makes at most `(1+n)·dialsPerConnect` dial attempts and
+pauses at most `(1+n)·waitsPerConnect` times between them, and does nothing else that can wait.
+So if one dial attempt takes at most `dt` (the dial time-out on TCP and TLS — on TLS it has to
+cover the handshake —, nothing on the in-memory transport) and one pause `wr` (`WaitRetry`), the
+call returns after at most `(1+n)·(dpc·dt + wpc·wr)`: for the single message of every protocol- and
+service-facing entry point, two connects. -/
+theorem c09_send_time_bounded (s : St) (p : Peer) (msgs : List Nat) (staleOk : Bool) (h : 1 ≤ s.dpc)
+    (dt wr : Nat) :
+    ((send s p msgs staleOk).1.dials - s.dials) * dt + ((send s p msgs staleOk).1.waits - s.waits) * wr
+      ≤ (1 + msgs.length) * (s.dpc * dt + s.wpc * wr) := by
+  have hd := c09_bounded_attempts s p msgs staleOk h
+  have hw := send_waits s p msgs staleOk
+  have h1 : ((send s p msgs staleOk).1.dials - s.dials) * dt ≤ ((1 + msgs.length) * s.dpc) * dt :=
+    Nat.mul_le_mul_right _ (by omega)
+  have h2 : ((send s p msgs staleOk).1.waits - s.waits) * wr ≤ ((1 + msgs.length) * s.wpc) * wr :=
+    Nat.mul_le_mul_right _ (by omega)
+  rw [Nat.mul_add, ← Nat.mul_assoc, ← Nat.mul_assoc]
+  omega
+
+/-- the constants of the bound, for both transports and every value of `MaxRetryConnect` -/
+theorem c09_waits_per_connect (M : Nat) :
+    waitsPerConnect M .tcp = M - 1 ∧ waitsPerConnect M .loc = M * M := ⟨rfl, rfl⟩
 
 /-! ### errors reach the caller -/
 
@@ -437,7 +527,7 @@ theorem c09_recovers (s : St) (p : Peer) (detected : List Nat) (msgs : List Nat)
 /-- what an action is about -/
 def Act.about (s : St) : Act → Option Peer
   | .peerDown p | .peerUp p | .accept p | .send p _ _ => some p
-  | .detect cid => (s.conns.find? (·.id == cid)).map (·.peer)
+  | .detect cid | .report cid | .remove cid => (s.conns.find? (·.id == cid)).map (·.peer)
   | .addHandler _ => none
 
 theorem filter_other_append (l x : List Conn) (q : Peer) (hx : ∀ c ∈ x, c.peer ≠ q) :
@@ -611,6 +701,37 @@ theorem c09_contained (s : St) (a : Act) (p q : Peer) (ha : a.about s = some p) 
         obtain ⟨hh, _, rfl⟩ := List.mem_map.mp hx
         simp [ha, hpq]
       simp [this]
+  | report cid =>
+    simp only [Act.about] at ha
+    cases hf : s.conns.find? (·.id == cid) with
+    | none => rw [hf] at ha; cases ha
+    | some c =>
+      rw [hf] at ha
+      simp only [Option.map_some, Option.some.injEq] at ha
+      have hstep : (step s (.report cid)).1 =
+          { s with calls := s.calls ++ s.handlers.map (·, c.peer) } := by
+        simp only [step, hf]
+      rw [hstep]
+      refine ⟨rfl, rfl, rfl, ?_⟩
+      show (s.calls ++ s.handlers.map (·, c.peer)).filter (·.2 == q) = s.calls.filter (·.2 == q)
+      rw [List.filter_append]
+      have : (s.handlers.map (·, c.peer)).filter (·.2 == q) = [] := by
+        apply List.filter_eq_nil_iff.mpr
+        intro x hx
+        obtain ⟨hh, _, rfl⟩ := List.mem_map.mp hx
+        simp [ha, hpq]
+      simp [this]
+  | remove cid =>
+    simp only [Act.about] at ha
+    cases hf : s.conns.find? (·.id == cid) with
+    | none => rw [hf] at ha; cases ha
+    | some c =>
+      rw [hf] at ha
+      simp only [Option.map_some, Option.some.injEq] at ha
+      have hstep : (step s (.remove cid)).1 = { s with conns := removeSwap s.conns c } := by
+        simp only [step, hf]
+      rw [hstep]
+      exact ⟨removeSwap_other s.conns c q (by rw [ha]; exact h), rfl, rfl, rfl⟩
   | send p' msgs b =>
     simp only [Act.about, Option.some.injEq] at ha; subst ha
     show (send s p' msgs b).1.conns.filter (·.peer == q) = _ ∧ (send s p' msgs b).1.up.contains q = _ ∧
@@ -823,6 +944,22 @@ theorem inv_step (s : St) (a : Act) (h : Inv s) : Inv (step s a).1 := by
         exact hc x ((mem_removeSwap s.conns c hm hnd x).mp hx).1 ha
       · intro x hx
         exact hlt x ((mem_removeSwap s.conns c hm hnd x).mp hx).1
+  | report cid =>
+    simp only [step]
+    split
+    · exact ⟨hc, hlt, hnd⟩
+    · exact ⟨hc, hlt, hnd⟩
+  | remove cid =>
+    simp only [step]
+    split
+    · exact ⟨hc, hlt, hnd⟩
+    · rename_i c hf
+      have hm := List.mem_of_find?_eq_some hf
+      refine ⟨?_, ?_, removeSwap_nodup s.conns c hm hnd⟩
+      · intro x hx ha
+        exact hc x ((mem_removeSwap s.conns c hm hnd x).mp hx).1 ha
+      · intro x hx
+        exact hlt x ((mem_removeSwap s.conns c hm hnd x).mp hx).1
   | accept p =>
     simp only [step]
     split
@@ -839,6 +976,495 @@ theorem c09_invariants_reachable (s : St) (acts : List Act) (h : Inv s) : Inv (r
   induction acts generalizing s with
   | nil => exact h
   | cons a l ih => exact ih _ (inv_step s a h)
+
+/-! ### error handlers may use the router they are registered with -/
+
+/-- the failure report is two steps of the receive loop: the handlers are called, then (deferred)
+the connection is closed and removed -/
+theorem c09_detect_is_report_then_remove (s : St) (cid : Nat) :
+    (step (step s (.report cid)).1 (.remove cid)).1 = (step s (.detect cid)).1 := by
+  simp only [step]
+  cases hf : s.conns.find? (·.id == cid) with
+  | none => simp [hf]
+  | some c => simp [hf]
+
+/-- what an error handler may do with its router while it runs -/
+def Act.handlerUse : Act → Bool
+  | .send _ _ _ => true
+  | .addHandler _ => true
+  | _ => false
+
+theorem sendMsgs_conns_prefix (s : St) (p : Peer) (c : Conn) (b : Bool) (msgs : List Nat) :
+    ∃ extra, (sendMsgs s p c b msgs).1.conns = s.conns ++ extra := by
+  induction msgs generalizing s with
+  | nil => exact ⟨[], by simp [sendMsgs]⟩
+  | cons m ms ih =>
+    simp only [sendMsgs]
+    have c1 := sendOn_conns s c m b
+    have cc : ∀ t : St, ∃ extra, (connect t p).1.conns = t.conns ++ extra := by
+      intro t; unfold connect; split
+      · exact ⟨_, rfl⟩
+      · exact ⟨[], by simp⟩
+    split
+    · obtain ⟨e, he⟩ := ih (sendOn s c m b).1
+      exact ⟨e, by rw [he, c1]⟩
+    · obtain ⟨e1, he1⟩ := cc (sendOn s c m b).1
+      rw [c1] at he1
+      split
+      · rename_i s2 heq
+        have h2 : s2 = (connect (sendOn s c m b).1 p).1 := by rw [heq]
+        subst h2; exact ⟨e1, he1⟩
+      · rename_i s2 c' heq
+        have h2 : s2 = (connect (sendOn s c m b).1 p).1 := by rw [heq]
+        subst h2
+        have c2 := sendOn_conns (connect (sendOn s c m b).1 p).1 c' m b
+        split
+        · obtain ⟨e, he⟩ := ih (sendOn (connect (sendOn s c m b).1 p).1 c' m b).1
+          exact ⟨e1 ++ e, by rw [he, c2, he1, List.append_assoc]⟩
+        · exact ⟨e1, by rw [c2, he1]⟩
+
+theorem send_conns_prefix (s : St) (p : Peer) (msgs : List Nat) (b : Bool) :
+    ∃ extra, (send s p msgs b).1.conns = s.conns ++ extra := by
+  unfold send
+  split
+  · exact ⟨[], by simp⟩
+  · split
+    · exact sendMsgs_conns_prefix s p _ b msgs
+    · have cc : ∃ extra, (connect s p).1.conns = s.conns ++ extra := by
+        unfold connect; split
+        · exact ⟨_, rfl⟩
+        · exact ⟨[], by simp⟩
+      obtain ⟨e1, he1⟩ := cc
+      split
+      · rename_i s1 heq
+        have h1 : s1 = (connect s p).1 := by rw [heq]
+        subst h1; exact ⟨e1, he1⟩
+      · rename_i s1 c heq
+        have h1 : s1 = (connect s p).1 := by rw [heq]
+        subst h1
+        obtain ⟨e, he⟩ := sendMsgs_conns_prefix (connect s p).1 p c b msgs
+        exact ⟨e1 ++ e, by rw [he, he1, List.append_assoc]⟩
+
+theorem handlerUse_conns_prefix (s : St) (cb : List Act) (hcb : ∀ a ∈ cb, a.handlerUse = true) :
+    ∃ extra, (run s cb).conns = s.conns ++ extra := by
+  induction cb generalizing s with
+  | nil => exact ⟨[], by simp [run]⟩
+  | cons a l ih =>
+    have hl : ∀ a ∈ l, a.handlerUse = true := fun a ha => hcb a (List.mem_cons_of_mem _ ha)
+    have ha := hcb a (by simp)
+    simp only [run]
+    have h1 : ∃ extra, (step s a).1.conns = s.conns ++ extra := by
+      cases a with
+      | send p msgs b => exact send_conns_prefix s p msgs b
+      | addHandler h => exact ⟨[], by simp [step]⟩
+      | peerDown _ => simp [Act.handlerUse] at ha
+      | peerUp _ => simp [Act.handlerUse] at ha
+      | detect _ => simp [Act.handlerUse] at ha
+      | report _ => simp [Act.handlerUse] at ha
+      | remove _ => simp [Act.handlerUse] at ha
+      | accept _ => simp [Act.handlerUse] at ha
+    obtain ⟨e1, he1⟩ := h1
+    obtain ⟨e, he⟩ := ih (step s a).1 hl
+    exact ⟨e1 ++ e, by rw [he, he1, List.append_assoc]⟩
+
+/-- **error handlers may use their router**: the handlers of a lost connection run in the receive
+loop's goroutine between the two halves of the report, with no lock of the router held and the
+connection still listed.  Whatever they do with the router meanwhile (`cb`: sends through any
+entry point, further handler registrations), every handler has been told about the lost peer
+before, the router is in a state of the kind every theorem above speaks about (so a notice sent to a
+peer that listens is delivered — `c09_send_up_delivers` —, a send to one that does not returns an
+error after bounded attempts), and afterwards exactly the lost connection leaves the table. -/
+theorem c09_handlers_may_use_router (s : St) (hi : Inv s) (c : Conn) (hc : c ∈ s.conns)
+    (cb : List Act) (hcb : ∀ a ∈ cb, a.handlerUse = true) :
+    let s1 := (step s (.report c.id)).1
+    let s2 := run s1 cb
+    let s3 := (step s2 (.remove c.id)).1
+    s1.calls = s.calls ++ s.handlers.map (·, c.peer) ∧ s1.conns = s.conns ∧
+    Inv s2 ∧
+    (∀ x, x ∈ s3.conns ↔ x ∈ s2.conns ∧ x.id ≠ c.id) ∧
+    s3.delivered = s2.delivered ∧ s3.calls = s2.calls ∧ s3.up = s2.up := by
+  intro s1 s2 s3
+  have hfind : ∀ t : St, Inv t → c ∈ t.conns → t.conns.find? (·.id == c.id) = some c := by
+    intro t ht hct
+    cases hf' : t.conns.find? (·.id == c.id) with
+    | none =>
+      have := List.find?_eq_none.mp hf' c hct
+      simp at this
+    | some c' =>
+      have hm := List.mem_of_find?_eq_some hf'
+      have hid : c'.id = c.id := by simpa using List.find?_some hf'
+      rw [eq_of_id_eq ht.2.2 hm hct hid]
+  have hs1 : s1 = { s with calls := s.calls ++ s.handlers.map (·, c.peer) } := by
+    simp only [s1, step, hfind s hi hc]
+  have hi1 : Inv s1 := inv_step s (.report c.id) hi
+  have hi2 : Inv s2 := c09_invariants_reachable s1 cb hi1
+  obtain ⟨extra, hex⟩ := handlerUse_conns_prefix s1 cb hcb
+  have hc2 : c ∈ s2.conns := by
+    show c ∈ (run s1 cb).conns
+    rw [hex, hs1]; simp [hc]
+  have hs3 : s3 = { s2 with conns := removeSwap s2.conns c } := by
+    simp only [s3, step, hfind s2 hi2 hc2]
+  refine ⟨by rw [hs1], by rw [hs1], hi2, ?_, by rw [hs3], by rw [hs3], by rw [hs3]⟩
+  intro x
+  rw [hs3]
+  exact mem_removeSwap s2.conns c hc2 hi2.2.2 x
+
+/-! ### every send entry point hands the router's error to its caller
+First over an arbitrary router-level send `rs` (nothing is assumed about it): what the caller gets
+is computed from the answers of the router sends that were made — no answer is dropped, replaced
+or invented.  Then for this router: exactly the destinations at which nothing listens cost an error. -/
+
+theorem errCount_append (a b : List (Peer × Res)) : errCount (a ++ b) = errCount a + errCount b := by
+  simp [errCount]
+
+theorem sendTo_closing {σ : Type} (rs : RS σ) (s : σ) (t : Tni) (to : Option Peer) :
+    (sendTo rs s t to).tni.closing = t.closing := by
+  unfold sendTo
+  split
+  · rfl
+  · split
+    · rfl
+    · dsimp only; split <;> rfl
+
+/-- **`Server.Send` is the router's send** (the server embeds the router) -/
+theorem c09_serverSend_reports {σ : Type} (rs : RS σ) (s : σ) (d : Peer) (n : Nat) :
+    serverSend rs s d n = rs s d n := rfl
+
+/-- **`Context.SendRaw`**: one message through the router; the caller gets an error exactly when
+the router's send returned one — and the version before commit abb887e did not -/
+theorem c09_sendRaw_reports {σ : Type} (rs : RS σ) (s : σ) (d : Peer) :
+    (ctxSendRaw rs s d).2 = (rs s d 1).2 ∧ (ctxSendRaw rs s d).1 = (rs s d 1).1 ∧
+    (ctxSendRawBeforeFix rs s d).2 = .ok := by
+  unfold ctxSendRaw ctxSendRawBeforeFix serverSend
+  cases h : (rs s d 1).2 <;> simp [h]
+
+/-- **`SendTo`**: a nil destination or a closing instance is refused without a router send;
+otherwise there is exactly one router send, to that node's server, carrying the message (and, the
+first time, the configuration), and the caller gets an error exactly when it returned one -/
+theorem c09_sendTo_reports {σ : Type} (rs : RS σ) (s : σ) (t : Tni) (to : Option Peer) :
+    let o := sendTo rs s t to
+    o.errs = (if to = none ∨ t.closing = true then 1 else 0) + errCount o.calls ∧
+    ((to = none ∨ t.closing = true) → o.calls = []) ∧
+    (∀ d, to = some d → t.closing = false →
+      ∃ n, (n = 1 ∨ n = 2) ∧ o.calls = [(d, (rs s d n).2)] ∧ o.errs = (rs s d n).2.n) := by
+  intro o
+  cases to with
+  | none => simp [o, sendTo, errCount]
+  | some d =>
+    cases hc : t.closing with
+    | true => simp [o, sendTo, hc, errCount]
+    | false =>
+      refine ⟨by simp [o, sendTo, hc, errCount, serverSend], by simp, ?_⟩
+      intro d' hd _
+      cases hd
+      refine ⟨if (!t.sentTo.contains d && t.config) = true then 2 else 1, ?_, ?_, ?_⟩
+      · split <;> simp
+      · simp [o, sendTo, hc, serverSend]
+      · simp [o, sendTo, hc, serverSend]
+
+/-- **`SendToParent`**: nothing at the root; otherwise it is `SendTo(parent)` -/
+theorem c09_sendToParent_reports {σ : Type} (rs : RS σ) (s : σ) (t : Tni) :
+    (t.parent = none → (sendToParent rs s t).errs = 0 ∧ (sendToParent rs s t).calls = []) ∧
+    (∀ p, t.parent = some p → sendToParent rs s t = sendTo rs s t (some p)) := by
+  constructor
+  · intro h; simp [sendToParent, h]
+  · intro p h; simp [sendToParent, h]
+
+theorem seqUntilErr_reports {σ : Type} (rs : RS σ) (s : σ) (t : Tni) (l : List Peer) :
+    (seqUntilErr rs s t l).errs = (if t.closing = true ∧ l ≠ [] then 1 else 0) + errCount (seqUntilErr rs s t l).calls ∧
+    (seqUntilErr rs s t l).errs ≤ 1 ∧
+    (seqUntilErr rs s t l).calls.map (·.1) <+: l := by
+  induction l generalizing s t with
+  | nil => simp [seqUntilErr, errCount]
+  | cons d l ih =>
+    have h1 := c09_sendTo_reports rs s t (some d)
+    simp only [seqUntilErr]
+    cases hc : t.closing with
+    | true =>
+      have he : (sendTo rs s t (some d)).errs = 1 := by simp [sendTo, hc]
+      have hcalls : (sendTo rs s t (some d)).calls = [] := by simp [sendTo, hc]
+      simp [he, hcalls, errCount]
+    | false =>
+      obtain ⟨n, _, hcalls, herrs⟩ := h1.2.2 d rfl hc
+      split
+      · rename_i h0
+        have ih' := ih (sendTo rs s t (some d)).st (sendTo rs s t (some d)).tni
+        rw [sendTo_closing, hc] at ih'
+        dsimp only
+        refine ⟨?_, ih'.2.1, ?_⟩
+        · rw [errCount_append, ih'.1]
+          have : errCount (sendTo rs s t (some d)).calls = 0 := by
+            rw [hcalls]; rw [herrs] at h0; simp [errCount, h0]
+          simp [this]
+        · rw [hcalls]
+          simp only [List.cons_append, List.nil_append, List.map_cons]
+          exact (List.prefix_cons_inj d).mpr ih'.2.2
+      · rename_i h0
+        refine ⟨?_, ?_, ?_⟩
+        · rw [hcalls, herrs]; simp [errCount]
+        · rw [herrs]; cases (rs s d n).2 <;> simp [Res.n]
+        · rw [hcalls]; simp
+
+/-- **`SendToChildren`**: the children are tried in order and the call returns at the first router
+send that fails: the caller gets an error exactly when some router send returned one (or the
+instance is closing), no send follows a failed one, and only children are addressed -/
+theorem c09_sendToChildren_reports {σ : Type} (rs : RS σ) (s : σ) (t : Tni) :
+    let o := sendToChildren rs s t
+    o.errs = (if t.closing = true ∧ t.children ≠ [] then 1 else 0) + errCount o.calls ∧
+    o.errs ≤ 1 ∧ o.calls.map (·.1) <+: t.children :=
+  seqUntilErr_reports rs s t t.children
+
+theorem sendAll_reports {σ : Type} (rs : RS σ) (s : σ) (t : Tni) (l : List Peer) :
+    (sendAll rs s t l).errs = (if t.closing = true then l.length else 0) + errCount (sendAll rs s t l).calls ∧
+    (t.closing = false → (sendAll rs s t l).calls.map (·.1) = l) := by
+  induction l generalizing s t with
+  | nil => simp [sendAll, errCount]
+  | cons d l ih =>
+    have h1 := c09_sendTo_reports rs s t (some d)
+    have ih' := ih (sendTo rs s t (some d)).st (sendTo rs s t (some d)).tni
+    rw [sendTo_closing] at ih'
+    simp only [sendAll]
+    cases hc : t.closing with
+    | true =>
+      have he : (sendTo rs s t (some d)).errs = 1 := by simp [sendTo, hc]
+      have hcalls : (sendTo rs s t (some d)).calls = [] := by simp [sendTo, hc]
+      rw [hc] at ih'
+      refine ⟨?_, by simp⟩
+      rw [he, hcalls, ih'.1]
+      simp; omega
+    | false =>
+      obtain ⟨n, _, hcalls, herrs⟩ := h1.2.2 d rfl hc
+      rw [hc] at ih'
+      refine ⟨?_, fun _ => ?_⟩
+      · rw [errCount_append, ih'.1, hcalls, herrs]
+        simp [errCount]
+      · rw [List.map_append, ih'.2 rfl, hcalls]; simp
+
+/-- **`Multicast`**, **`Broadcast`**, **`SendToChildrenInParallel`**: every destination is tried
+— a failed send does not stop the others — and the caller gets one error per router send that
+failed (per destination, if the instance is closing); for the parallel variant in whatever order
+`sched` the goroutines run -/
+theorem c09_multicast_reports {σ : Type} (rs : RS σ) (s : σ) (t : Tni) (nodes : List Peer) :
+    (multicast rs s t nodes).errs = (if t.closing = true then nodes.length else 0) + errCount (multicast rs s t nodes).calls ∧
+    (t.closing = false → (multicast rs s t nodes).calls.map (·.1) = nodes) :=
+  sendAll_reports rs s t nodes
+
+theorem c09_broadcast_reports {σ : Type} (rs : RS σ) (s : σ) (t : Tni) :
+    (broadcast rs s t).errs = (if t.closing = true then t.others.length else 0) + errCount (broadcast rs s t).calls ∧
+    (t.closing = false → (broadcast rs s t).calls.map (·.1) = t.parent.toList ++ t.children) :=
+  sendAll_reports rs s t t.others
+
+theorem c09_parallel_reports {σ : Type} (rs : RS σ) (s : σ) (t : Tni) (sched : List Peer) :
+    (sendToChildrenInParallel rs s t sched).errs =
+      (if t.closing = true then sched.length else 0) + errCount (sendToChildrenInParallel rs s t sched).calls ∧
+    (t.closing = false → (sendToChildrenInParallel rs s t sched).calls.map (·.1) = sched) :=
+  sendAll_reports rs s t sched
+
+/-! ### … and on this router: exactly the destinations where nothing listens cost an error -/
+
+theorem send_keeps (s : St) (p : Peer) (msgs : List Nat) (b : Bool) : Keeps s (send s p msgs b).1 := by
+  unfold send
+  split
+  · exact Keeps.refl s
+  · split
+    · exact sendMsgs_keeps s p _ b msgs
+    · have kc := connect_keeps s p
+      split
+      · rename_i s1 heq
+        have h1 : s1 = (connect s p).1 := by rw [heq]
+        subst h1; exact kc
+      · rename_i s1 c heq
+        have h1 : s1 = (connect s p).1 := by rw [heq]
+        subst h1; exact kc.trans (sendMsgs_keeps _ p c b msgs)
+
+theorem send_down_delivered (s : St) (hs : Consistent s) (p : Peer) (msgs : List Nat)
+    (hup : s.up.contains p = false) : (send s p msgs false).1.delivered = s.delivered := by
+  unfold send
+  split
+  · rfl
+  · split
+    · rename_i c hf
+      obtain ⟨hm, hp⟩ := firstConn_some hf
+      have hdead : c.alive = false := by
+        cases ha : c.alive with
+        | false => rfl
+        | true => have := hs c hm ha; rw [hp, hup] at this; cases this
+      cases msgs with
+      | nil => simp [sendMsgs]
+      | cons m ms =>
+        simp only [sendMsgs, sendOn, hdead]
+        simp [connect_down s p hup]
+    · simp [connect_down s p hup]
+
+/-- this router's send, seen from an entry point: with at least one message, in a consistent state,
+it fails exactly when nothing listens at the destination; it delivers all or nothing -/
+theorem rsend_exact (s : St) (hi : Inv s) (d : Peer) (n : Nat) (hn : 1 ≤ n) :
+    (rsend s d n).2 = (if s.up.contains d = true then .ok else .err) ∧
+    Inv (rsend s d n).1 ∧ Keeps s (rsend s d n).1 ∧
+    (rsend s d n).1.delivered = s.delivered ++ (if s.up.contains d = true then List.replicate n (d, 0) else []) := by
+  have hne : List.replicate n 0 ≠ [] := by
+    cases n with
+    | zero => omega
+    | succ k => simp [List.replicate_succ]
+  refine ⟨?_, send_inv s d _ false hi, send_keeps s d _ false, ?_⟩
+  · show (send s d (List.replicate n 0) false).2 = _
+    cases hu : s.up.contains d with
+    | true => rw [(c09_send_up_delivers s d _ hne hu).1]; simp
+    | false => rw [send_down_errs s hi.1 d _ hu]; simp
+  · cases hu : s.up.contains d with
+    | true =>
+      have := (c09_send_up_delivers s d _ hne hu).2
+      simp only [rsend, this, List.map_replicate, if_true]
+    | false =>
+      have := send_down_delivered s hi.1 d (List.replicate n 0) hu
+      simp [rsend, this]
+
+/-- **`SendTo`, exactly**: in every reachable state the caller of `SendTo` gets an error if and
+only if the instance is closing or nothing listens at the destination; when it gets none, the
+message (preceded, the first time, by the configuration) has been handed to the destination; when it
+gets one, nothing was delivered -/
+theorem c09_sendTo_exact (s : St) (hi : Inv s) (t : Tni) (d : Peer) :
+    let o := sendTo rsend s t (some d)
+    o.errs = (if (t.closing || !s.up.contains d) = true then 1 else 0) ∧
+    Inv o.st ∧ Keeps s o.st ∧
+    o.st.delivered = s.delivered ++
+      (if (t.closing || !s.up.contains d) = true then []
+       else List.replicate (if (!t.sentTo.contains d && t.config) = true then 2 else 1) (d, 0)) := by
+  intro o
+  cases hc : t.closing with
+  | true => simp [o, sendTo, hc, hi, Keeps.refl]
+  | false =>
+    have hn : 1 ≤ (if (!t.sentTo.contains d && t.config) = true then 2 else 1) := by split <;> omega
+    obtain ⟨h1, h2, h3, h4⟩ := rsend_exact s hi d _ hn
+    have ho : o = ⟨(rsend s d (if (!t.sentTo.contains d && t.config) = true then 2 else 1)).1,
+        (if (!t.sentTo.contains d) = true then { t with sentTo := t.sentTo ++ [d] } else t),
+        (rsend s d (if (!t.sentTo.contains d && t.config) = true then 2 else 1)).2.n,
+        [(d, (rsend s d (if (!t.sentTo.contains d && t.config) = true then 2 else 1)).2)]⟩ := by
+      simp [o, sendTo, hc, serverSend]
+    rw [ho]
+    refine ⟨?_, h2, h3, ?_⟩
+    · dsimp only; rw [h1]
+      cases s.up.contains d <;> simp [Res.n]
+    · dsimp only; rw [h4]
+      cases s.up.contains d <;> simp
+
+theorem sendAll_exact (s : St) (hi : Inv s) (t : Tni) (l : List Peer) :
+    (sendAll rsend s t l).errs =
+      (if t.closing = true then l.length else (l.filter fun d => !s.up.contains d).length) ∧
+    Inv (sendAll rsend s t l).st ∧ Keeps s (sendAll rsend s t l).st ∧
+    (t.closing = false →
+      s.delivered.length + (l.filter fun d => s.up.contains d).length ≤ (sendAll rsend s t l).st.delivered.length) := by
+  induction l generalizing s t with
+  | nil => simp [sendAll, hi, Keeps.refl]
+  | cons d l ih =>
+    obtain ⟨e1, i1, k1, d1⟩ := c09_sendTo_exact s hi t d
+    have ih' := ih (sendTo rsend s t (some d)).st i1 (sendTo rsend s t (some d)).tni
+    rw [sendTo_closing, k1.up] at ih'
+    obtain ⟨e2, i2, k2, d2⟩ := ih'
+    simp only [sendAll]
+    refine ⟨?_, i2, k1.trans k2, ?_⟩
+    · rw [e1, e2]
+      cases hc : t.closing with
+      | true => simp; omega
+      | false =>
+        cases hu : s.up.contains d with
+        | true => simp only [List.filter_cons, hu]; simp
+        | false => simp only [List.filter_cons, hu]; simp; omega
+    · intro hc
+      have d2' := d2 hc
+      rw [d1] at d2'
+      have hlen : 1 ≤ (if (!t.sentTo.contains d && t.config) = true then 2 else 1) := by split <;> omega
+      cases hu : s.up.contains d with
+      | true =>
+        rw [hc, hu] at d2'
+        have e : (false || !true) = false := rfl
+        rw [e] at d2'
+        simp only [Bool.false_eq_true, if_false, List.length_append, List.length_replicate] at d2'
+        simp only [List.filter_cons, hu, if_true, List.length_cons]
+        omega
+      | false =>
+        rw [hc, hu] at d2'
+        have e : (false || !false) = true := rfl
+        rw [e] at d2'
+        simp only [if_true, List.append_nil] at d2'
+        simp only [List.filter_cons, hu, Bool.false_eq_true, if_false]
+        exact d2'
+
+/-- **`Multicast` / `Broadcast` / `SendToChildrenInParallel`, exactly**: in every reachable state
+the caller gets as many errors as there are destinations at which nothing listens (all of them if
+the instance is closing); every destination that listens is handed its message -/
+theorem c09_collecting_sends_exact (s : St) (hi : Inv s) (t : Tni) (nodes : List Peer) :
+    (multicast rsend s t nodes).errs =
+      (if t.closing = true then nodes.length else (nodes.filter fun d => !s.up.contains d).length) ∧
+    (broadcast rsend s t).errs =
+      (if t.closing = true then t.others.length else (t.others.filter fun d => !s.up.contains d).length) ∧
+    (t.closing = false →
+      s.delivered.length + (nodes.filter fun d => s.up.contains d).length ≤ (multicast rsend s t nodes).st.delivered.length) :=
+  ⟨(sendAll_exact s hi t nodes).1, (sendAll_exact s hi t t.others).1, (sendAll_exact s hi t nodes).2.2.2⟩
+
+/-- **the order of the goroutines does not matter**: whatever permutation of the children the
+scheduler picks, `SendToChildrenInParallel` hands its caller the same number of errors — one per
+child at which nothing listens -/
+theorem c09_parallel_any_schedule (s : St) (hi : Inv s) (t : Tni) (sched : List Peer)
+    (hp : sched.Perm t.children) :
+    (sendToChildrenInParallel rsend s t sched).errs =
+      (if t.closing = true then t.children.length else (t.children.filter fun d => !s.up.contains d).length) := by
+  rw [sendToChildrenInParallel, (sendAll_exact s hi t sched).1]
+  rw [hp.length_eq, (hp.filter _).length_eq]
+
+theorem seqUntilErr_exact (s : St) (hi : Inv s) (t : Tni) (l : List Peer) :
+    (seqUntilErr rsend s t l).errs =
+      (if (!l.isEmpty && (t.closing || l.any fun d => !s.up.contains d)) = true then 1 else 0) := by
+  induction l generalizing s t with
+  | nil => simp [seqUntilErr]
+  | cons d l ih =>
+    obtain ⟨e1, i1, k1, _⟩ := c09_sendTo_exact s hi t d
+    simp only [seqUntilErr]
+    cases hc : t.closing with
+    | true =>
+      rw [hc] at e1
+      have e : (true || !s.up.contains d) = true := rfl
+      rw [e] at e1
+      simp [e1]
+    | false =>
+      cases hu : s.up.contains d with
+      | false =>
+        rw [hc, hu] at e1
+        have e : (false || !false) = true := rfl
+        rw [e] at e1
+        simp only [if_true] at e1
+        simp only [e1, List.any_cons, hu]
+        simp [e1]
+      | true =>
+        rw [hc, hu] at e1
+        have e : (false || !true) = false := rfl
+        rw [e] at e1
+        simp only [Bool.false_eq_true, if_false] at e1
+        have ih' := ih (sendTo rsend s t (some d)).st i1 (sendTo rsend s t (some d)).tni
+        rw [sendTo_closing, k1.up, hc] at ih'
+        simp only [e1, if_true, ih', List.any_cons, hu]
+        cases l with
+        | nil => simp
+        | cons x l' => simp
+
+/-- **`SendToChildren`, exactly**: in every reachable state the caller gets an error if and only if
+there are children and the instance is closing or nothing listens at one of them -/
+theorem c09_sendToChildren_exact (s : St) (hi : Inv s) (t : Tni) :
+    (sendToChildren rsend s t).errs =
+      (if (!t.children.isEmpty && (t.closing || t.children.any fun d => !s.up.contains d)) = true then 1 else 0) :=
+  seqUntilErr_exact s hi t t.children
+
+/-- **`Server.Send` / `Context.SendRaw` / `SendToParent`, exactly** -/
+theorem c09_single_sends_exact (s : St) (hi : Inv s) (t : Tni) (d : Peer) (n : Nat) (hn : 1 ≤ n) :
+    (serverSend rsend s d n).2 = (if s.up.contains d = true then .ok else .err) ∧
+    (ctxSendRaw rsend s d).2 = (if s.up.contains d = true then .ok else .err) ∧
+    (t.parent = some d →
+      (sendToParent rsend s t).errs = (if (t.closing || !s.up.contains d) = true then 1 else 0)) := by
+  refine ⟨(rsend_exact s hi d n hn).1, ?_, ?_⟩
+  · rw [(c09_sendRaw_reports rsend s d).1]; exact (rsend_exact s hi d 1 (by omega)).1
+  · intro hp
+    rw [(c09_sendToParent_reports rsend s t).2 d hp]
+    exact (c09_sendTo_exact s hi t d).1
 
 /-! ### non-vacuity and a worked history -/
 
@@ -869,6 +1495,41 @@ example : Inv s0 := inv_init 5 [1, 2]
 
 example : 1 ≤ (entry .sendToChildren [1, 3, 2] (fun d => (send s0 d [0] false).2)).1 ∧
     (entry .sendToChildren [1, 3, 2] (fun d => (send s0 d [0] false).2)).2 = [1, 3] := by decide
+
+/-- an error handler that uses its router: peer 1 is lost while peer 2 listens; between the report
+and the removal the handler sends a notice to peer 2 (first contact: one dial) and a message to the
+lost peer itself (the write on the listed connection fails, the reconnect finds nothing listening);
+afterwards exactly the lost connection is gone -/
+example :
+    let s := run s0 [.addHandler 10, .send 1 [7] false, .peerDown 1, .report 0,
+                     .send 2 [99] false, .send 1 [98] false, .remove 0]
+    s.calls = [(10, 1)] ∧ s.delivered = [(1, 7), (2, 99)] ∧
+    s.conns = [{ id := 1, peer := 2, alive := true }] ∧ s.dials = 1 + 1 + 5 ∧ s.waits = 4 := by decide
+
+/-- a tree-node instance with a configuration: the first message to a child carries it (two
+messages in one router send), the second does not; the child that does not listen costs one error
+and stops `SendToChildren`; once the instance is closing nothing reaches the router any more -/
+example :
+    let t : Tni := { children := [1, 3, 2], config := true }
+    let o1 := sendTo rsend s0 t (some 1)
+    let o2 := sendTo rsend o1.st o1.tni (some 1)
+    let o3 := sendToChildren rsend o2.st o2.tni
+    let o4 := sendToChildrenInParallel rsend o3.st o3.tni [2, 3, 1]
+    let o5 := broadcast rsend o4.st { o4.tni with closing := true }
+    (o1.errs, o1.st.delivered.length) = (0, 2) ∧ (o2.errs, o2.st.delivered.length) = (0, 3) ∧
+    (o3.errs, o3.calls) = (1, [(1, .ok), (3, .err)]) ∧
+    (o4.errs, o4.calls.map (·.1), o4.st.delivered.length) = (1, [2, 3, 1], 4 + 2 + 1) ∧
+    (o5.errs, o5.calls, o5.st.delivered.length) = (3, [], 7) := by decide
+
+/-- the root has no parent: `SendToParent` does nothing and reports nothing -/
+example : (sendToParent rsend s0 {}).errs = 0 ∧ (sendToParent rsend s0 { parent := some 3 }).errs = 1 := by decide
+
+/-- the bound of `1 + n` connects is tight up to the first one: over a stale entry towards a peer
+that is back, every one of the `n` messages costs its own reconnect (the retry's connection is not
+kept for the next message) -/
+example :
+    let s := run s0 [.send 1 [7] false, .peerDown 1, .peerUp 1]
+    ((send s 1 [8, 9] false).1.dials - s.dials, (send s 1 [8, 9] false).1.conns.length) = (2, 3) := by decide
 
 
 /-! ### the code regions the model stands for
